@@ -316,7 +316,7 @@ func (fr *frame) runDefers() {
 // Target panics stay; anything else is an interpreter failure = engine error.
 func normalizePanic(r any) any {
 	switch p := r.(type) {
-	case targetPanic, targetRuntimeError, engineError, pathAbort:
+	case targetPanic, targetRuntimeError, engineError, pathAbort, nonTermination:
 		return p
 	case runtime.Error:
 		return engineError{fmt.Sprintf("interpreter crashed: %v\n%s", p, debug.Stack())}
@@ -742,6 +742,19 @@ func callSSA(i *interpreter, caller *frame, callpos token.Pos, fn *ssa.Function,
 		panic(engineError{"uninstantiated generic function " + fn.String()})
 	}
 	i.funcHits[fn]++
+	if lim := i.path.cfg.RecursionLimits; lim != nil {
+		name := fn.String()
+		if max, ok := lim[name]; ok {
+			if i.path.active == nil {
+				i.path.active = map[string]int{}
+			}
+			i.path.active[name]++
+			defer func() { i.path.active[name]-- }()
+			if i.path.active[name] > max {
+				panic(nonTermination{fn: name, depth: i.path.active[name]})
+			}
+		}
+	}
 
 	fr.isInit = fn.Synthetic == "package initializer"
 	fr.env = make(map[ssa.Value]value)
